@@ -70,6 +70,13 @@ static void body(Env& env, const std::string& stage, int n, const dom::Alphabet&
           if (!ref::equalLang(ref::withFinals(R, {s}), ref::withFinals(prod, {pq.first * W + pq.second}))) { c.viol(sub, "state_language_not_the_pair_intersection", {}, det("state " + std::to_string(s) + " stands for (" + std::to_string(pq.first) + "," + std::to_string(pq.second) + "); result: " + R.str()), w); break; } }
         unchanged(sub);
       }
+      // ---- the same object as both operands (diagonal of the pair space only)
+      if (ij.first == ij.second) { c.count("aliased_operand_cases");
+        { ExplicitTreeAut r = ExplicitTreeAut::Union(a, a); if (!ref::equalLang(dom::readBack(r), A)) c.viol("Union(aliased)", "language_not_the_union", {}, det("Union(a, a); result: " + dom::readBack(r).str()), w); }
+        { AutBase::StateToStateMap m1, m2; ExplicitTreeAut r = ExplicitTreeAut::Union(a, a, &m1, &m2); if (!ref::equalLang(dom::readBack(r), A)) c.viol("Union(aliased,maps)", "language_not_the_union", {}, det("Union(a, a, &m1, &m2); result: " + dom::readBack(r).str()), w); }
+        for (int bu = 0; bu < 2; bu++) { AutBase::ProductTranslMap pm; ExplicitTreeAut r = bu ? ExplicitTreeAut::IntersectionBU(a, a, &pm) : ExplicitTreeAut::Intersection(a, a, &pm);
+          if (!ref::equalLang(dom::readBack(r), A)) c.viol(bu ? "IntersectionBU(aliased)" : "Intersection(aliased)", "language_not_the_intersection", {}, det("both operands are the same object; result: " + dom::readBack(r).str()), w); }
+        if (dom::readBack(a) != A) c.viol("aliased", "operand_changed", {}, det(""), w); }
     } catch (std::exception& e) { c.viol("union/intersection", "exception", {}, det(e.what()), w); }
   };
   env.parallel(o);
